@@ -13,6 +13,7 @@ compares multisets), user code calling register_handler itself.
 import ast
 
 from .. import analysis
+from ..logic import entails
 from ..astutil import calls_in, call_name, where, kw, local_assignments
 from ..cfg import build_cfg
 from ..dataflow import node_of_ast
@@ -162,8 +163,10 @@ def run(prog, rep):
         for node, edge in path:
             if node in fresh:
                 ok = True
-            if node.kind == "branch" and isinstance(node.ast.test, ast.Name) and node.ast.test.id == "reset" and edge == "false":
-                ok = True
+            if node.kind == "branch" and edge in ("true", "false") and \
+                    entails(node.ast.test, edge == "true", lambda lf: "R" if isinstance(lf, ast.Name) and lf.id == "reset" else None,
+                            lambda a: not a["R"], ["R"]):
+                ok = True     # this outcome is only possible with a falsy `reset`
         if not ok:
             bad_path = path
             break
@@ -181,7 +184,7 @@ def run(prog, rep):
         for c in calls_in(f.node):
             if isinstance(c.func, ast.Attribute) and c.func.attr == "register_custom_handler":
                 sites.append((f, c))
-    rep.floor("TS-1", len(sites), 3, "register_custom_handler call sites")
+    rep.floor("TS-1", len(sites), 1, "register_custom_handler call sites")
     for f, c in sites:
         recv = c.func.value
         good = False
